@@ -16,6 +16,8 @@ from harness import tlc
 SPEC_DIR = "/verif/specs/rails"
 LEVEL = "exploration"
 TEMPLATE = "{{ 7*7 }} $user_message {$bot_message} {% if x %}y{% endif %}"
+DOLLAR = "$last_user_message and $5 is the price"
+LITERALS = {"template": ("{{ 7*7 }}", "$user_message", "{$bot_message}"), "template-v2": ("$user_message", "$HOME"), "dollar": ("$last_user_message and $5",)}
 TEMPLATE_V2 = "use $user_message and $HOME"   # ({...} is interpolation syntax of the generated Colang code itself: not used)
 
 
@@ -49,11 +51,16 @@ def concretise(cls, task, t, rnd=None):
     elif cls == "template":
         s = ('  "%s %s"' % (TEMPLATE, marker)) if task == "generate_bot_message" else (
             "%s %s" % (TEMPLATE, marker) if msg_task else
-            (' bot answer something\nbot action: bot say "%s %s"' % (TEMPLATE_V2, marker)) if task == "generate_flow_continuation" else "  ask {{ x }} $user_message {$y}")
+            (' bot answer something\nbot action: bot say "%s %s"' % (TEMPLATE_V2, marker)) if task == "generate_flow_continuation" else
+            ('  ask other\nbot answer other\n  "%s %s"' % (TEMPLATE, marker)) if task == "generate_intent_steps_message" else "  ask {{ x }} $user_message {$y}")
     elif cls == "long":
         s = ('  "' + "very long %s " % marker * 3000 + '"') if msg_task else "  ask " + "other " * 5000
     elif cls == "unicode":
         s = ('  "こんにちは \U0001F642 ñ ‮ %s"' % marker) if msg_task else "  こんにちは \U0001F642"
+    elif cls == "dollar":         # message text that BEGINS with variable syntax
+        s = {"generate_bot_message": '  "%s %s"' % (DOLLAR, marker), "general": "%s %s" % (DOLLAR, marker),
+             "generate_intent_steps_message": '  ask other\nbot answer other\n  "%s %s"' % (DOLLAR, marker),
+             "generate_flow_continuation": ' bot answer something\nbot action: bot say "%s %s"' % (DOLLAR, marker)}.get(task, "  $last_user_message")
     elif cls == "userfirst":      # well-formed Colang that first waits for the user
         s = {"generate_next_steps": "user ask other\nbot answer other", "generate_intent_steps_message": "  ask other\nuser ask other\nbot answer other\n  \"late %s\"" % marker,
              "generate_flow_continuation": 'user said "later"\nbot say "late %s"' % marker}.get(task, "  user ask other")
@@ -220,10 +227,13 @@ def run(ctx):
             text = content if isinstance(content, str) else ""
             classes = s["turns"][t - 1]["classes"]
             msg_calls = [c for c in tr["calls"] if c in ("generate_bot_message", "general", "generate_flow_continuation")]
+            if not msg_calls and "generate_intent_steps_message" in tr["calls"]:
+                msg_calls = ["generate_intent_steps_message"]     # single-call mode: the message comes with the intent and the steps
             source = msg_calls[-1] if msg_calls else None    # the call whose answer becomes the bot message
-            tmpl_sent = source is not None and classes.get(source) == "template"
+            scls = classes.get(source) if source is not None else None
+            tmpl_sent = scls in ("template", "dollar")
             delivered = bool(re.search(r"B%dv0" % t, text))
-            literal = all(x in text for x in (("$user_message", "$HOME") if s["mode"] == "v2" else ("{{ 7*7 }}", "$user_message", "{$bot_message}")))
+            literal = all(x in text for x in LITERALS.get(("template-v2" if s["mode"] == "v2" else "template") if scls == "template" else "dollar"))
             cases.append({"raised": tr["raised"] is not None, "role": reply.get("role") or "", "content_is_string": isinstance(content, str),
                           "llm_text_delivered": delivered, "template_sent": tmpl_sent, "template_literal": literal})
             idx.append((sid, t, tr))
@@ -256,13 +266,13 @@ def run(ctx):
     return {"level": LEVEL, "coverage": {
         "evaluations": len(cases), "distinct_nontrivial": len(set(json.dumps(scripts[sid]["turns"][t - 1]["classes"], sort_keys=True) + scripts[sid]["mode"]
                                                                     for (sid, t, tr) in idx if any(c != "ok" for c in scripts[sid]["turns"][t - 1]["classes"].values()))),
-        "rule": "every assignment of the 15 output classes to the LLM call positions of one turn for the modes dialog (3 calls), multi-step, single-call, general/passthrough (Colang 1.0) "
+        "rule": "every assignment of the 16 output classes to the LLM call positions of one turn for the modes dialog (3 calls), multi-step, single-call, general/passthrough (Colang 1.0) "
                 "and the Colang 2.x llm library (intent detection + flow continuation), plus a seeded sample of two-turn scripts; strings inside a class are fixed hostile samples "
                 "(thorough: + seeded splices with well-formed output); non-trivial = distinct (mode, class vector) with a non-ok class",
         "samples": samples, "states": r.distinct + jr.distinct, "transitions": r.generated + jr.generated,
         "traces_validated_against_impl": len(cases), "exhaustive": False, "turns_with_template_text_delivered": delivered_templates,
     }, "assumptions": [
-        "the space of LLM strings is sampled: 15 hostile classes with one representative each (plus seeded mutations), positions x classes enumerated exhaustively for single turns",
+        "the space of LLM strings is sampled: 16 hostile classes with one representative each (plus seeded mutations), positions x classes enumerated exhaustively for single turns",
         "LLM provider exceptions are out of scope; an answer is 'delivered' when the reply contains the turn's bot marker",
     ]}
 
